@@ -4,6 +4,7 @@ CONSTANTS
   KORD <- c_KORD
   GENVALS <- c_GENVALS
   DEVS <- c_DEVS_design
+  UNBOND = 10
   DECI = 0
   PREC = 1
   AMOUNTS = {1}
@@ -18,6 +19,7 @@ CONSTANTS
   NOOPBUDGET = 99
   VSTAKERS = {"s1", "v"}
   PATHS = {"keeper", "pc"}
+  COVER = FALSE
   NONEMPTY = FALSE
   BLOCKW = 1
 VIEW View
